@@ -519,7 +519,7 @@ type VFSFile struct {
 	maxTXID1        ltx.TXID // Last TXID read from level 1
 	index           map[uint32]ltx.PageIndexElem
 	pending         map[uint32]ltx.PageIndexElem
-	pendingReplace  bool
+	pendingTruncate uint32                     // smallest size a pending shrink cut the database to; 0 if none
 	cache           *lru.Cache[uint32, []byte] // LRU cache for page data
 	targetTime      *time.Time                 // Target view time; nil means latest
 	latestLTXTime   time.Time                  // Timestamp of most recent LTX file
@@ -1218,7 +1218,7 @@ func (f *VFSFile) rebuildIndex(ctx context.Context, infos []*ltx.FileInfo, targe
 	defer f.mu.Unlock()
 	f.index = index
 	f.pending = make(map[uint32]ltx.PageIndexElem)
-	f.pendingReplace = false
+	f.pendingTruncate = 0
 	f.pos = pos
 	f.maxTXID1 = maxTXID1
 	if len(infos) > 0 {
@@ -1270,6 +1270,13 @@ func (f *VFSFile) buildIndexMap(ctx context.Context, infos []*ltx.FileInfo) (map
 			return nil, fmt.Errorf("fetch header: %w", err)
 		}
 		commit = hdr.Commit
+
+		// Pages beyond the committed size no longer exist after a shrink.
+		for k := range index {
+			if k > commit {
+				delete(index, k)
+			}
+		}
 	}
 
 	f.mu.Lock()
@@ -2254,14 +2261,16 @@ func (f *VFSFile) Unlock(elock sqlite3vfs.LockType) error {
 	f.lockType = elock
 
 	// Copy pending index to main index and invalidate affected pages in cache.
-	if f.pendingReplace {
-		// Replace entire index
-		count := len(f.index)
-		f.index = f.pending
-		f.logger.Debug("cache invalidated all pages", "count", count)
-		// Invalidate entire cache since we replaced the index
-		f.cache.Purge()
-	} else if len(f.pending) > 0 {
+	if f.pendingTruncate > 0 {
+		// The database shrank while the lock was held: drop the pages cut off.
+		for k := range f.index {
+			if k > f.pendingTruncate {
+				delete(f.index, k)
+				f.cache.Remove(k)
+			}
+		}
+	}
+	if len(f.pending) > 0 {
 		// Merge pending into index
 		count := len(f.pending)
 		for k, v := range f.pending {
@@ -2271,7 +2280,7 @@ func (f *VFSFile) Unlock(elock sqlite3vfs.LockType) error {
 		f.logger.Debug("cache invalidated pages", "count", count)
 	}
 	f.pending = make(map[uint32]ltx.PageIndexElem)
-	f.pendingReplace = false
+	f.pendingTruncate = 0
 
 	return nil
 }
@@ -2501,54 +2510,34 @@ func (f *VFSFile) pollReplicaClient(ctx context.Context) error {
 	pos := f.Pos()
 	f.logger.Debug("polling replica client", "txid", pos.TXID.String())
 
-	combined := make(map[uint32]ltx.PageIndexElem)
-
 	f.mu.Lock()
 	baseCommit := f.commit
 	maxTXID1Snapshot := f.maxTXID1
 	f.mu.Unlock()
 
-	newCommit := baseCommit
-	replaceIndex := false
-
-	maxTXID0, idx0, commit0, replace0, err := f.pollLevel(ctx, 0, pos.TXID, baseCommit)
+	maxTXID0, combined, newCommit, truncate, err := f.pollLevel(ctx, 0, pos.TXID, baseCommit)
 	if err != nil {
 		return fmt.Errorf("poll L0: %w", err)
 	}
-	if replace0 {
-		replaceIndex = true
-		baseCommit = commit0
-		newCommit = commit0
-		combined = idx0
-	} else {
-		if len(idx0) > 0 {
-			baseCommit = commit0
-		}
-		for k, v := range idx0 {
-			combined[k] = v
-		}
-		if commit0 > newCommit {
-			newCommit = commit0
-		}
-	}
 
-	maxTXID1, idx1, commit1, replace1, err := f.pollLevel(ctx, 1, maxTXID1Snapshot, baseCommit)
+	maxTXID1, idx1, commit1, truncate1, err := f.pollLevel(ctx, 1, maxTXID1Snapshot, newCommit)
 	if err != nil {
 		return fmt.Errorf("poll L1: %w", err)
 	}
-	if replace1 {
-		replaceIndex = true
-		baseCommit = commit1
-		newCommit = commit1
-		combined = idx1
-	} else {
-		for k, v := range idx1 {
-			combined[k] = v
+	if truncate1 > 0 {
+		for k := range combined {
+			if k > truncate1 {
+				delete(combined, k)
+			}
 		}
-		if commit1 > newCommit {
-			newCommit = commit1
+		if truncate == 0 || truncate1 < truncate {
+			truncate = truncate1
 		}
 	}
+	for k, v := range idx1 {
+		combined[k] = v
+	}
+	newCommit = commit1
 
 	// Send updates to a pending list if there are active readers.
 	f.mu.Lock()
@@ -2568,19 +2557,22 @@ func (f *VFSFile) pollReplicaClient(ctx context.Context) error {
 		target = f.pending
 		targetIsMain = false
 	} else {
-		f.pendingReplace = false
+		f.pendingTruncate = 0
 	}
-	if replaceIndex {
-		if f.lockType < sqlite3vfs.LockShared {
-			f.index = make(map[uint32]ltx.PageIndexElem)
-			target = f.index
-			targetIsMain = true
-			f.pendingReplace = false
-		} else {
-			f.pending = make(map[uint32]ltx.PageIndexElem)
-			target = f.pending
-			targetIsMain = false
-			f.pendingReplace = true
+	if truncate > 0 {
+		// The database shrank: pages beyond the smallest size it was cut to are
+		// gone unless a later file in this poll wrote them again.
+		for k := range target {
+			if k > truncate {
+				delete(target, k)
+				if targetIsMain {
+					f.cache.Remove(k)
+					invalidateN++
+				}
+			}
+		}
+		if !targetIsMain && (f.pendingTruncate == 0 || truncate < f.pendingTruncate) {
+			f.pendingTruncate = truncate
 		}
 	}
 	for k, v := range combined {
@@ -2596,9 +2588,7 @@ func (f *VFSFile) pollReplicaClient(ctx context.Context) error {
 		f.logger.Debug("cache invalidated pages due to new ltx files", "count", invalidateN)
 	}
 
-	if replaceIndex {
-		f.commit = newCommit
-	} else if len(combined) > 0 && newCommit > f.commit {
+	if len(combined) > 0 || truncate > 0 {
 		f.commit = newCommit
 	}
 
@@ -2622,19 +2612,19 @@ func (f *VFSFile) pollReplicaClient(ctx context.Context) error {
 }
 
 // pollLevel fetches LTX files for a specific level and returns the highest TXID seen,
-// any index updates, the latest commit value, and if the index should be replaced.
-func (f *VFSFile) pollLevel(ctx context.Context, level int, prevMaxTXID ltx.TXID, baseCommit uint32) (ltx.TXID, map[uint32]ltx.PageIndexElem, uint32, bool, error) {
+// any index updates, the commit value of the last file read (baseCommit if none),
+// and the smallest size a shrink cut the database to while reading them (0 if none).
+func (f *VFSFile) pollLevel(ctx context.Context, level int, prevMaxTXID ltx.TXID, baseCommit uint32) (ltx.TXID, map[uint32]ltx.PageIndexElem, uint32, uint32, error) {
 	itr, err := f.client.LTXFiles(ctx, level, prevMaxTXID+1, false)
 	if err != nil {
-		return prevMaxTXID, nil, baseCommit, false, fmt.Errorf("ltx files: %w", err)
+		return prevMaxTXID, nil, baseCommit, 0, fmt.Errorf("ltx files: %w", err)
 	}
 	defer func() { _ = itr.Close() }()
 
 	index := make(map[uint32]ltx.PageIndexElem)
 	maxTXID := prevMaxTXID
 	lastCommit := baseCommit
-	newCommit := baseCommit
-	replaceIndex := false
+	truncate := uint32(0)
 
 	for itr.Next() {
 		info := itr.Item()
@@ -2647,26 +2637,34 @@ func (f *VFSFile) pollLevel(ctx context.Context, level int, prevMaxTXID ltx.TXID
 				f.logger.Warn("ltx gap detected at L0, deferring to higher levels", "expected", maxTXID+1, "next", info.MinTXID)
 				break
 			}
-			return maxTXID, nil, newCommit, replaceIndex, fmt.Errorf("non-contiguous ltx file: level=%d, current=%s, next=%s-%s", level, maxTXID, info.MinTXID, info.MaxTXID)
+			return maxTXID, nil, lastCommit, truncate, fmt.Errorf("non-contiguous ltx file: level=%d, current=%s, next=%s-%s", level, maxTXID, info.MinTXID, info.MaxTXID)
 		}
 
 		f.logger.Debug("new ltx file", "level", info.Level, "min", info.MinTXID, "max", info.MaxTXID)
 
 		idx, err := FetchPageIndex(ctx, f.client, info)
 		if err != nil {
-			return maxTXID, nil, newCommit, replaceIndex, fmt.Errorf("fetch page index: %w", err)
+			return maxTXID, nil, lastCommit, truncate, fmt.Errorf("fetch page index: %w", err)
 		}
 		hdr, err := FetchLTXHeader(ctx, f.client, info)
 		if err != nil {
-			return maxTXID, nil, newCommit, replaceIndex, fmt.Errorf("fetch header: %w", err)
+			return maxTXID, nil, lastCommit, truncate, fmt.Errorf("fetch header: %w", err)
 		}
 
 		if hdr.Commit < lastCommit {
-			replaceIndex = true
-			index = make(map[uint32]ltx.PageIndexElem)
+			// The database shrank: pages beyond the new size no longer exist.
+			// Pages inside it keep their entries; a partial shrink (auto_vacuum)
+			// rewrites only some of them.
+			for k := range index {
+				if k > hdr.Commit {
+					delete(index, k)
+				}
+			}
+			if truncate == 0 || hdr.Commit < truncate {
+				truncate = hdr.Commit
+			}
 		}
 		lastCommit = hdr.Commit
-		newCommit = hdr.Commit
 
 		for k, v := range idx {
 			f.logger.Debug("adding new page index", "page", k, "elem", v)
@@ -2675,7 +2673,7 @@ func (f *VFSFile) pollLevel(ctx context.Context, level int, prevMaxTXID ltx.TXID
 		maxTXID = info.MaxTXID
 	}
 
-	return maxTXID, index, newCommit, replaceIndex, nil
+	return maxTXID, index, lastCommit, truncate, nil
 }
 
 func (f *VFSFile) pageSizeBytes() (uint32, error) {
